@@ -6,7 +6,7 @@ From VF Require Import Lifecycle.Pool Lifecycle.PoolProofs Lifecycle.Fin Lifecyc
   Lifecycle.HttpLife Lifecycle.HttpLifeProofs Lifecycle.LifeSeq.
 Import ListNotations.
 
-Definition all_sop (f : sop -> bool) : bool := f SStart && f SStop && f SRequest && f STick && f SStopBusy && f SStartFail.
+Definition all_sop (f : sop -> bool) : bool := f SStart && f SStop && f SRequest && f STick && f SStopBusy && f SStartFail && f SStartThreadFail.
 Lemma all_sop_ok f : all_sop f = true -> forall x, f x = true.
 Proof. unfold all_sop. intros H x. repeat (apply andb_prop in H; destruct H as [H ?]). destruct x; assumption. Qed.
 
@@ -111,7 +111,7 @@ Qed.
 
 Theorem tftp_idempotent h : tseq cur init h = spec_run false h.
 Proof.
-  apply (seq_follows_spec glob cpc op lock (cstep cur) (mstep cur) is_idle Idle Start Stop StartF tview (tbusy cur) talive tserving tsinv);
+  apply (seq_follows_spec glob cpc op lock (cstep cur) (mstep cur) is_idle Idle Start Stop StartF StartT tview (tbusy cur) talive tserving tsinv);
     [|reflexivity].
   exact tseq_one.
 Qed.
@@ -133,8 +133,8 @@ Qed.
 
 (* ======================= HTTP ======================= *)
 Notation hst := (st hglob hpc hop).
-Notation hstep := (step hglob hpc hop hlock (hcstep true) hmstep).
-Notation hrun := (run hglob hpc hop hlock (hcstep true) hmstep).
+Notation hstep := (step hglob hpc hop hlock (hcstep true true) hmstep).
+Notation hrun := (run hglob hpc hop hlock (hcstep true true) hmstep).
 Notation HInv := (Inv hglob hpc hop hlock hgok hlok hact hactb).
 Definition hpool : list (list hop) -> hst := pool hglob hpc hop hinit HIdle.
 
@@ -152,7 +152,7 @@ Theorem http_concurrent ops sch :
   (all_done hglob hpc hop his_idle s = false -> exists ch, hstep s ch <> None) /\
   (all_done hglob hpc hop his_idle s = true -> hquiet (g s) = true).
 Proof.
-  exact (pool_concurrent hglob hpc hop hlock (hcstep true) hmstep his_idle hgok hlok hact hactb
+  exact (pool_concurrent hglob hpc hop hlock (hcstep true true) hmstep his_idle hgok hlok hact hactb
            hO1' hO2' hO3' hD1' hD2' hquiet hF1' hF2' hinit HIdle eq_refl eq_refl eq_refl eq_refl eq_refl ops sch).
 Qed.
 
@@ -167,7 +167,7 @@ Definition hin_stop (p : hpc) : bool :=
 Definition chkHSR : bool :=
   all_hglob (fun gl => all_bool (fun me => all_hpc (fun p => all_opt all_hop (fun o =>
     implb (hgok gl && hlok gl me p && hin_stop p)
-      match hcstep true gl me p o with
+      match hcstep true true gl me p o with
       | Some (g', p', _) => implb (his_idle p' && hquiet g') (HStopped g')
       | None => true
       end)))).
@@ -183,10 +183,10 @@ Theorem http_stop_releases ops sch i c s' :
 Proof.
   intros s Hi Hp Hs Hid.
   destruct (http_concurrent ops sch) as (HI & _ & _). fold s in HI.
-  assert (HI' : HInv s') by (eapply (inv_step hglob hpc hop hlock (hcstep true) hmstep hgok hlok hact hactb hO1' hO2' hO3'); eauto).
+  assert (HI' : HInv s') by (eapply (inv_step hglob hpc hop hlock (hcstep true true) hmstep hgok hlok hact hactb hO1' hO2' hO3'); eauto).
   pose proof (idle_quiet hglob hpc hop hlock his_idle hgok hlok hact hactb hquiet hF1' hF2' s' HI' Hid) as Hq.
   cbn [Pool.step] in Hs. rewrite Hi in Hs.
-  destruct (hcstep true (g s) (isme hglob hpc hop hlock s i) (pc c) (hd_error (todo c))) as [[[g' p'] b]|] eqn:E; [|discriminate].
+  destruct (hcstep true true (g s) (isme hglob hpc hop hlock s i) (pc c) (hd_error (todo c))) as [[[g' p'] b]|] eqn:E; [|discriminate].
   injection Hs as <-. cbn [g callers] in *.
   pose proof (all_opt_ok _ all_hop_ok _ (all_hpc_ok _ (all_bool_ok _ (all_hglob_ok _ chkHSR_true (g s)) (isme hglob hpc hop hlock s i)) (pc c)) (hd_error (todo c))) as K.
   cbn beta in K. destruct HI as [Hg _ Hl _]. rewrite Hg, (Hl _ _ Hi), Hp, E in K. cbn in K.
@@ -203,7 +203,7 @@ Definition hsinv (gl : hglob) (r : bool) : bool :=
 Definition chkHSeq : bool :=
   all_hglob (fun gl => all_bool (fun r => all_sop (fun o =>
     implb (hsinv gl r)
-      match hseq_step true gl o with
+      match hseq_step true true gl o with
       | Some (g', ob) => lnat_eqb ob (spec_obs r o) && hsinv g' (spec_next r o)
       | None => false
       end))).
@@ -211,18 +211,18 @@ Lemma chkHSeq_true : chkHSeq = true.
 Proof. vm_compute. reflexivity. Qed.
 
 Lemma hseq_one gl r o : hsinv gl r = true ->
-  exists g', hseq_step true gl o = Some (g', spec_obs r o) /\ hsinv g' (spec_next r o) = true.
+  exists g', hseq_step true true gl o = Some (g', spec_obs r o) /\ hsinv g' (spec_next r o) = true.
 Proof.
   intros Hi.
   pose proof (all_sop_ok _ (all_bool_ok _ (all_hglob_ok _ chkHSeq_true gl) r) o) as K. cbn beta in K.
   rewrite Hi in K. cbn [implb] in K.
-  destruct (hseq_step true gl o) as [[g' ob]|]; [|discriminate].
+  destruct (hseq_step true true gl o) as [[g' ob]|]; [|discriminate].
   apply andb_prop in K. destruct K as [K1 K2]. apply lnat_eqb_eq in K1. subst ob. eauto.
 Qed.
 
-Theorem http_idempotent h : hseq true hinit h = spec_run false h.
+Theorem http_idempotent h : hseq true true hinit h = spec_run false h.
 Proof.
-  apply (seq_follows_spec hglob hpc hop hlock (hcstep true) hmstep his_idle HIdle HStart HStop HStartF hview (fun g => g) (fun g => hmt_live (hmt g)) hserving hsinv);
+  apply (seq_follows_spec hglob hpc hop hlock (hcstep true true) hmstep his_idle HIdle HStart HStop HStartF HStartT hview (fun g => g) (fun g => hmt_live (hmt g)) hserving hsinv);
     [|reflexivity].
   exact hseq_one.
 Qed.
@@ -231,7 +231,7 @@ Lemma stopped_hsinv : all_hglob (fun x => implb (hgok x && HStopped x) (hsinv x 
 Proof. vm_compute. reflexivity. Qed.
 
 Theorem http_restart gl : hgok gl = true -> HStopped gl = true ->
-  exists g', hseq_step true gl SStart = Some (g', spec_obs false SStart) /\ HRunning g' = true.
+  exists g', hseq_step true true gl SStart = Some (g', spec_obs false SStart) /\ HRunning g' = true.
 Proof.
   intros Hg Hs.
   assert (Hi : hsinv gl false = true).
